@@ -120,6 +120,84 @@ def bracket(prog, ctx):
     ctx.decide(R, 'Bracket:returns-bracket', fn, not probs_ret, 'every early return hands back a bracket (fb <= fa and fb <= fc)', '; '.join(probs_ret))
     ctx.decide(R, 'Bracket:pairing', fn, not probs_pair, 'on every path fa, fb, fc remain the function values at ax, bx, cx', '; '.join(probs_pair[:3]),
                witness={'paths': probs_pair} if probs_pair else None)
+    # ---- positions: the triple stays ordered (bx strictly between ax and cx) on every path.  The path conditions touch the points
+    # only through signs of products of differences, so a finite set of placements of (ax, bx, cx, trial point) covers them.
+    AU = sp.core.function.AppliedUndef
+    uids = [d_['id'] for d_ in local_decls(fn) if d_['ty'] == 'double' and d_.get('init') is not None and
+            any(x_.get('k') == 'Call' and (x_.get('callee') or {}).get('q') == L + 'Sign' for x_ in walk_expr(d_['init']))]
+    probs_ord = []
+    nfeas = 0
+    try:
+        if len(uids) != 1:
+            raise Undecided('parabolic trial point not identified')
+        # the parabolic trial point can be any real number (it depends on the three function values): one more iteration summary in
+        # which its defining expression is replaced by a free symbol, so that the tests on it stay visible as such
+        import copy as _copy
+        loop2 = _copy.deepcopy(loop)
+        for s2_ in walk_stmts(loop2['body']):
+            if s2_['k'] == 'Decl':
+                for d2_ in s2_['decls']:
+                    if d2_['id'] == uids[0]:
+                        d2_['init'] = {'k': 'Ref', 'id': 'U@trial', 'name': 'U@trial', 'rk': 'local', 'ty': 'double', 'l': d2_.get('l')}
+        sx2 = Symx(prog, fn, inline={L + 'Bracket_Method::Shift3', L + 'Bracket_Method::Shift2', L + 'Bracket_Method::Move3'})
+        entry2, cond2, live2, done2, m0 = sx2.loop_step(loop2, pre[0])
+        Us = sx2.symbol('U@trial', 'double')
+        U0 = Us
+        ent2 = {k: v for k, v in entry2.items() if isinstance(k, str) and k.startswith('this.')}
+        ax, bx, cx = ent2['this.ax'], ent2['this.bx'], ent2['this.cx']
+        paths = [('next', p.env, p.conds[m0:]) for p in live2] + [(o.kind, o.state.env, o.state.conds[m0:]) for o in done2 if o.kind == 'return']
+        for (av, bv, cv) in ((0.0, 1.0, 3.0), (3.0, 2.0, 0.0), (-5.0, -4.5, -1.0)):
+            base = {ax: av, bx: bv, cx: cv}
+            # every other point that occurs in the conditions (ulim, the golden-section point) is an expression of these three
+            others = set()
+            for kind, env, conds in paths:
+                for c_ in conds:
+                    if isinstance(c_, sp.Rel):
+                        for t_ in c_.atoms(sp.Mul):
+                            for f_ in t_.args:
+                                e_ = f_.subs(U0, Us)
+                                for y_ in (e_.as_independent(Us)[0],):
+                                    pass
+            pts = [av, bv, cv]
+            lims = []
+            for kind, env, conds in paths:
+                for v_ in env.values():
+                    if isinstance(v_, sp.Basic) and not v_.atoms(AU) and v_.free_symbols and v_.free_symbols <= {ax, bx, cx}:
+                        try:
+                            lims.append(float(v_.subs(base)))
+                        except Exception:
+                            pass
+            cuts = sorted(set(round(x_, 9) for x_ in pts + lims))
+            cand = [cuts[0] - 7.0] + [(cuts[i_] + cuts[i_ + 1]) / 2 for i_ in range(len(cuts) - 1)] + [cuts[-1] + 7.0]
+            for uv in cand:
+                sub = dict(base)
+                for kind, env, conds in paths:
+                    feas = True
+                    for c_ in conds:
+                        if not isinstance(c_, sp.Rel):
+                            continue
+                        c2 = c_.subs(U0, Us).subs(sub).subs(Us, uv)
+                        if c2 in (sp.true, True):
+                            continue
+                        if c2 in (sp.false, False):
+                            feas = False
+                            break
+                        # a condition on function values: both outcomes are possible
+                    if not feas:
+                        continue
+                    try:
+                        na, nb, nc = [float(env[k_].subs(U0, Us).subs(sub).subs(Us, uv)) for k_ in ('this.ax', 'this.bx', 'this.cx')]
+                    except (TypeError, ValueError):
+                        continue
+                    nfeas += 1
+                    if not (nb - na) * (nc - nb) > 0:
+                        tag = [str(c_.subs(U0, Us))[:60] for c_ in conds if isinstance(c_, sp.Rel) and c_.has(U0)][-2:]
+                        probs_ord.append('%s path %s with (ax,bx,cx)=(%g,%g,%g), trial point %g: the triple becomes (%g,%g,%g), bx is no longer between ax and cx'
+                                         % (kind, tag, av, bv, cv, uv, na, nb, nc))
+        ctx.decide(R, 'Bracket:ordering', fn, not probs_ord and nfeas >= 10, 'on all %d feasible (placement, path) pairs the new middle point lies strictly between the new outer points' % nfeas,
+                   '; '.join(probs_ord[:2]) or 'too few feasible placements (%d)' % nfeas, witness={'cases': probs_ord[:4]} if probs_ord else None, line=loop['l'])
+    except Undecided as ex_:
+        ctx.undecided(R, 'Bracket:ordering', fn, 'positions outside the understood fragment: %s' % ex_)
     # constants
     consts = {d['name']: d for d in local_decls(fn)}
     g = float(strip_casts(consts['golden_ratio']['init'])['val']) if 'golden_ratio' in consts else None
